@@ -345,7 +345,11 @@ def _case(draw, ctx):
     tables = draw(st.lists(st.integers(0, (1 << 64) - 1), min_size=16, max_size=16))
     pre = draw(st.sampled_from(["", "", "\n// Generated by some tool 1.2\n// on: Jan 17 2020\n\n", "/* header\n   comment */\n", "\n\n  "]))
     post = draw(st.sampled_from(["", "", "\n// end of file\n", "\n\n"]))
-    return {"mod": mod, "ws": ws, "reject": rj, "tables": tables, "pre": pre, "post": post}
+    case = {"mod": mod, "ws": ws, "reject": rj, "tables": tables, "pre": pre, "post": post}
+    if draw(st.integers(0, 3)) == 0:
+        # other netlists read earlier in the same process: the result must not depend on them
+        case["prior"] = [draw(_module(ctx)) for _ in range(draw(st.integers(1, 2)))]
+    return case
 
 
 def strategy(ctx):
@@ -387,6 +391,10 @@ def check(case, ctx):
         return {"nontrivial": False, "labels": ["skipped_empty_port_list"]}
     text = case.get("pre", "") + vlog.render(mod, case.get("ws"), glue_close="header") + case.get("post", "")
     bbs = [cg.BlackBox(n, list(i), list(o)) for n, i, o in mod["bbtypes"]]
+    for pm in case.get("prior", []):
+        if [p for p in pm["ports"] if not isinstance(p, dict)]:
+            lib(cg.io.verilog_to_circuit, vlog.render(pm, None, glue_close="header"), pm["name"],
+                blackboxes=[cg.BlackBox(n, list(i), list(o)) for n, i, o in pm["bbtypes"]])
     out = lib(cg.io.verilog_to_circuit, text, mod["name"], blackboxes=bbs)
     if rj:
         if out.ok:
